@@ -284,6 +284,9 @@ pub fn run(ctx: &Ctx) -> i32 {
         let strat = move || (recipe_strategy(len), prop::collection::vec(any::<u8>(), 1..64)).boxed();
         st.merge(ctx.run_prop(name, total / 2, strat, move |(prog, choices)| Some(Case12 { base: elaborate(&cfg, prog), choices: choices.clone() })));
     }
+    if ctx.tier == Tier::Thorough {
+        st.merge(ctx.run_fuzz(20000, ctx.threads, &dispatch));
+    }
     finish(
         ctx,
         st,
